@@ -21,8 +21,10 @@ package c20
 
 import (
 	"fmt"
+	"regexp"
 	"sort"
 	"strings"
+	"sync/atomic"
 	"testing"
 
 	hcl "Havoc/pkg/profile/yaotl"
@@ -45,7 +47,7 @@ type TravStep struct {
 
 type Edit struct {
 	Path   []int       `json:"path,omitempty"` // nested block indices (modulo the number of blocks at each level)
-	Op     string      `json:"op"`             // set-value set-traversal set-raw remove-attr append-block remove-block set-labels
+	Op     string      `json:"op"`             // set-value set-traversal set-raw remove-attr append-block remove-block set-labels remove-first-item
 	Name   int         `json:"name"`           // >=0: existing attribute number (modulo), <0: a new name
 	Type   cfggen.Type `json:"type,omitempty"`
 	Val    cfggen.Val  `json:"val,omitempty"`
@@ -73,7 +75,7 @@ func genEdit(t *rapid.T) Edit {
 	for i := 0; i < np; i++ {
 		e.Path = append(e.Path, rapid.IntRange(0, 3).Draw(t, "pathidx"))
 	}
-	e.Op = rapid.SampledFrom([]string{"set-value", "set-value", "set-traversal", "set-raw", "remove-attr", "remove-attr", "append-block", "remove-block", "set-labels"}).Draw(t, "op")
+	e.Op = rapid.SampledFrom([]string{"set-value", "set-value", "set-traversal", "set-raw", "remove-attr", "remove-attr", "append-block", "remove-block", "set-labels", "remove-first-item", "remove-first-item"}).Draw(t, "op")
 	e.Name = rapid.IntRange(-2, 4).Draw(t, "name")
 	switch e.Op {
 	case "set-value":
@@ -178,6 +180,7 @@ type mItem struct {
 	// braceLine: the item's lead comments start right behind the enclosing block's
 	// opening brace, on the brace's line, and include the comment that ends that line
 	braceLine bool
+	braceRun  bool
 }
 
 type mBody struct {
@@ -186,6 +189,11 @@ type mBody struct {
 }
 
 type region struct{ lo, hi int }
+
+// removedBehindBraceRun counts the cases that remove the first item of a body with
+// >= 2 items whose opening-brace line carries inline comment(s) followed by a line
+// comment (reported in the evidence file).
+var removedBehindBraceRun int64
 
 type model struct {
 	root    *mBody
@@ -256,6 +264,8 @@ func buildBody(src []byte, toks []tk, body *hclsyntax.Body, minTok int, inBlock 
 			for k := lead; k < first; k++ {
 				if endsLine(toks[k]) {
 					item.braceLine = true
+					item.braceRun = k > lead // inline comment(s) before the one that ends the line
+					break
 				}
 			}
 		}
@@ -443,6 +453,34 @@ func (md *model) apply(e *Edit, wroot *hclwrite.Body, ap *applied) {
 		md.lastRemoved, md.lastRemovedIn = it.a.name, mb
 		if it.braceLine {
 			ap.braceLine = true
+			if it.braceRun && len(mb.items) >= 2 {
+				atomic.AddInt64(&removedBehindBraceRun, 1)
+			}
+		}
+		if it.orig {
+			md.removed = append(md.removed, region{it.lo, it.hi})
+		}
+		mb.remove(it)
+	case "remove-first-item":
+		if len(mb.items) == 0 {
+			return
+		}
+		it := mb.items[0]
+		if it.a != nil {
+			wb.RemoveAttribute(it.a.name)
+			md.lastRemoved, md.lastRemovedIn = it.a.name, mb
+		} else {
+			wbl := wb.Blocks()
+			if len(wbl) == 0 {
+				return
+			}
+			wb.RemoveBlock(wbl[0])
+		}
+		if it.braceLine {
+			ap.braceLine = true
+			if it.braceRun && len(mb.items) >= 2 {
+				atomic.AddInt64(&removedBehindBraceRun, 1)
+			}
 		}
 		if it.orig {
 			md.removed = append(md.removed, region{it.lo, it.hi})
@@ -469,6 +507,9 @@ func (md *model) apply(e *Edit, wroot *hclwrite.Body, ap *applied) {
 		wb.RemoveBlock(wbl[e.Block%len(wbl)])
 		if it.braceLine {
 			ap.braceLine = true
+			if it.braceRun && len(mb.items) >= 2 {
+				atomic.AddInt64(&removedBehindBraceRun, 1)
+			}
 		}
 		if it.orig {
 			md.removed = append(md.removed, region{it.lo, it.hi})
@@ -678,6 +719,7 @@ func checkB(c CaseB) *core.Violation {
 	for i := range c.Edits {
 		md.apply(&c.Edits[i], f.Body(), ap)
 	}
+	core.SetExtra("c20b_cases_removing_first_item_behind_brace_comment_run", atomic.LoadInt64(&removedBehindBraceRun))
 	out := f.Bytes()
 	show := func() string {
 		return fmt.Sprintf("edits: %s\noutput:\n%s\nsource:\n%s", clip(fmt.Sprintf("%+v", c.Edits), 1500), clip(string(out), 2500), clip(c.Src, 2500))
@@ -751,6 +793,8 @@ func checkB(c CaseB) *core.Violation {
 	return nil
 }
 
+var braceCommentRun = regexp.MustCompile(`\{[ \t]*(/\*[^\n]*?\*/[ \t]*)+(#|//)`)
+
 func classifyB(c CaseB) core.Class {
 	var cl core.Class
 	valid, heredoc, comment, template := srcClass(c.Src)
@@ -772,6 +816,12 @@ func classifyB(c CaseB) core.Class {
 	if deep {
 		cl.Labels = append(cl.Labels, "edit:nested-body")
 	}
+	if braceCommentRun.MatchString(c.Src) {
+		cl.Labels = append(cl.Labels, "src:brace-line-with-inline-then-line-comment")
+		if ops["remove-first-item"] && deep {
+			cl.Labels = append(cl.Labels, "edit:remove-first-item-in-file-with-brace-comment-run")
+		}
+	}
 	cl.Labels = append(cl.Labels, fmt.Sprintf("nedits:%d", len(c.Edits)))
 	var ol []string
 	for o := range ops {
@@ -789,7 +839,7 @@ func classifyB(c CaseB) core.Class {
 func TestC20b(t *testing.T) {
 	core.Run(t, core.Spec[CaseB]{
 		Property: "C20", Sub: "b",
-		Rule: "a generated source file (as in C20a) and 1-5 edits, each on the root body or a nested body reached through 0-2 block indices: SetAttributeValue (primitive/list/map/set/any values, arbitrary Unicode strings), SetAttributeTraversal, SetAttributeRaw, RemoveAttribute (existing or missing), AppendNewBlock (0-2 labels), RemoveBlock, SetLabels; the same edits update a model built from hclsyntax's parse. Oracle: File.Bytes() parses; every body shows the model's items in order; untouched attributes and block headers keep their tokens; set attributes read back as the value / traversal / tokens given; labels are the model's; comments outside removed or replaced regions are all still there in order and no comment appears. Non-trivial: heredoc, comment or template in the file, or >=2 edits; distinct = (origin, heredoc, comment, template, #edits<=3, first two op kinds)",
+		Rule: "a generated source file (as in C20a) and 1-5 edits, each on the root body or a nested body reached through 0-2 block indices: SetAttributeValue (primitive/list/map/set/any values, arbitrary Unicode strings), SetAttributeTraversal, SetAttributeRaw, RemoveAttribute (existing or missing), AppendNewBlock (0-2 labels), RemoveBlock, removal of the first item of a body, SetLabels; the same edits update a model built from hclsyntax's parse. Oracle: File.Bytes() parses; every body shows the model's items in order; untouched attributes and block headers keep their tokens; set attributes read back as the value / traversal / tokens given; labels are the model's; comments outside removed or replaced regions are all still there in order and no comment appears. Non-trivial: heredoc, comment or template in the file, or >=2 edits; distinct = (origin, heredoc, comment, template, #edits<=3, first two op kinds)",
 		Gen:  genB, Check: checkB, Classify: classifyB,
 		Assumptions: []string{
 			"hclsyntax's parse of the source and of the output is the trusted observer of structure",
